@@ -9,6 +9,7 @@ import (
 	"fmt"
 	"github.com/tonkeeper/tongo/wallet"
 	"math/big"
+	"math/rand"
 	"reflect"
 	"strconv"
 	"time"
@@ -29,6 +30,7 @@ func init() {
 		"tlb.fieldtag":  exFieldTag,
 		"tlb.dec":       exTlbDec,
 		"tlb.canon":     exTlbCanon,
+		"go.readsrc":    goReadSrc,
 		"tlb.canoninfo": exTlbCanonInfo,
 		"go.redec":      goReDecode,
 		"go.rt":         goRoundTrip,
@@ -290,6 +292,9 @@ func genC04(g *h.G) {
 	// (d) real chain data: every transaction / message / state-init of the test blocks re-encoded; hashes compared
 	genTags(g)
 	genReal(g)
+	for i, rs := 0, rand.New(rand.NewSource(g.Seed*32452843+4)); i < g.Scale(25, 500); i++ {
+		g.Emit("go.readsrc", fmt.Sprint(rs.Int63()))
+	}
 	for k, n := range gc.Cov {
 		g.Counters["gen_"+k] += n
 	}
